@@ -133,6 +133,15 @@ reg("C05",
     "DWR/DWA, DPR/DPA) filtered by command code.",
     "controlled-scheduler concurrency testing with fault injection (partial writes) and a stream oracle", "DESIGN.md#c05")
 
+reg("C08",
+    WORLD + "Generated (termination cause x life point x role x schedule prefix) cases: local close, DPR, peer FIN/RST, refused "
+    "connect at connecting / awaiting CEA / responder awaiting CER / idle Open / queued inbound / queued outbound / blocked consumer / "
+    "Closing; at fair completion the state, every fake socket and selector, every controlled thread and the blocked API calls are "
+    "inspected, then the same object is started again and must reach Open.",
+    "Termination is bounded liveness: 30 virtual seconds under fair completion; schedules sampled; a cooperative peer answers the "
+    "node's DPR except at life point 'closing'.",
+    "controlled-scheduler fault-injection testing (connection faults x life points) with resource/liveness oracles", "DESIGN.md#c08")
+
 ALL = [f"C{i:02d}" for i in range(1, 21)]
 
 def main():
